@@ -47,6 +47,8 @@ def sh(cmd, log, timeout=None, mem_gb=None, stack_unlimited=False, cwd=HARNESS):
 
 def features_of(run):
     f = list(run.get("features", []))
+    if not run.get("noext"):
+        f.append("ext")
     cfg = run.get("cfg", "nostd")
     if cfg == "std":
         f.append("cfg_std")
@@ -297,13 +299,18 @@ def main():
             continue
         problems.append("harness %s: status %s %s" % (r["harness"], st, json.dumps(r.get("error", {}))))
 
+    extra = {}
+    if cfgp.get("post"):
+        pv, pp, extra = POSTS[cfgp["post"]](workdir, a.tier)
+        violations += pv
+        problems += pp
     wall = time.time() - t0
-    write_evidence(prop, a.tier, seed, cfgp, all_res, metas, wall, len(violations), problems, twins_ok, known_hits)
+    write_evidence(prop, a.tier, seed, cfgp, all_res, metas, wall, len(violations), problems, twins_ok, known_hits, extra)
 
     for k, r in known_hits:
         print("KNOWN-FINDING: property=%s %s [harness %s]" % (prop, k["what"], harness_short(r["harness"])))
     for r in violations:
-        print("counterexample: harness %s: %s" % (r["harness"], "; ".join(c["description"] or "" for c in r["failed"])))
+        print("counterexample: %s %s: %s" % ("harness" if "::" in r["harness"] else "program", r["harness"], "; ".join(c["description"] or "" for c in r["failed"])))
         print("  native replay: %s" % r["replay"]["detail"])
         print("VIOLATION property=%s replay=%s" % (prop, r["replay"]["path"]))
     for p in problems:
@@ -320,7 +327,44 @@ def main():
     sys.exit(0)
 
 
-def write_evidence(prop, tier, seed, cfgp, all_res, metas, wall, nviol, problems, twins_ok, known_hits=()):
+def post_c17(workdir, tier):
+    """C17: (a) problems found while lifting the kernel from the real macro expansion; (b) twin programs compiled
+    against /repo: the real compiler verdict must match the expected one (a mismatch is a concrete failing program)."""
+    viol, probs, extra = [], [], {}
+    lift = BUILD / "c17lift" / "lift.json"
+    if lift.exists():
+        rep = json.load(open(lift))
+        extra["lift"] = {"sizes": rep.get("lifted_sizes"), "templates": {k: {"expected": v["expected"], "occurrences": v["occurrences"]} for k, v in rep.get("templates", {}).items()}}
+        lift_problems = rep.get("problems", [])
+    else:
+        lift_problems = ["lift report missing"]
+    log = workdir / "twins.log"
+    rc, _ = sh(["python3", str(VERIF / "tools" / "c17_twins.py")], log, timeout=1800, cwd=VERIF)
+    twins = []
+    for line in open(log, errors="replace"):
+        if line.startswith("{"):
+            twins.append(json.loads(line))
+    extra["twin_programs"] = twins
+    extra["programs"] = len(twins)
+    extra["disagreements_checked"] = len(twins)
+    if not twins:
+        probs.append("twin programs could not be compiled (see %s)" % log)
+    bad = [t for t in twins if not t["agree"]]
+    for t in bad:
+        viol.append({"harness": t["name"], "failed": [{"description": "program %s: expected %s, real compiler %s" % (
+            t["name"], "to compile" if t["expected_compiles"] else "a compile-time rejection", "accepted it" if t["compiles"] else "rejected it: " + t["diagnostic"])}],
+            "replay": {"path": t["path"], "reproduced": True, "detail": "cargo build --bin %s in %s" % (t["name"], BUILD / "c17twins")}})
+    # a damaged kernel that the twins do not expose is inconclusive, not a violation
+    for lp in lift_problems:
+        if not bad:
+            probs.append("lift: " + lp)
+    return viol, probs, extra
+
+
+POSTS = {"c17": post_c17}
+
+
+def write_evidence(prop, tier, seed, cfgp, all_res, metas, wall, nviol, problems, twins_ok, known_hits=(), extra=None):
     EVID.mkdir(exist_ok=True)
     obligations = sum(r["props"].get("total_properties", 0) for r in all_res)
     discharged = sum(r["props"].get("passed", 0) + r["props"].get("satisfied", 0) for r in all_res)
@@ -357,6 +401,7 @@ def write_evidence(prop, tier, seed, cfgp, all_res, metas, wall, nviol, problems
             "negative_twins_failed_as_required": twins_ok,
             "known_findings_reproduced": [k["what"] for k, _ in known_hits],
             "inconclusive": problems, "runs": metas, "exhaustive": False,
+            **(extra or {}),
         },
         "assumptions": cfgp.get("assumptions", []) + props.COMMON_ASSUMPTIONS,
         "wall_s": round(wall, 1), "violations": nviol,
